@@ -18,7 +18,7 @@ Import ListNotations.
    defined, in whichever order the map yields them -- every object with a frozen
    flag (list, dict, set, struct, function) that is reachable from the globals
    has its flag set, for ALL finite heaps: shared, nested, cyclic.
-   Hypothesis closed_frozen: values that were frozen BEFORE (by an earlier
+   Premise closed_frozen: values that were frozen BEFORE (by an earlier
    module or by the host) were frozen deeply; it holds trivially when nothing
    is frozen yet (nothing_frozen_closed) and is re-established by the epilogue,
    so it is an invariant of module-after-module execution.  (What can break it
@@ -82,46 +82,121 @@ Theorem frozen_rejects :
 Proof. exact frozen_rejects_lemma. Qed.
 
 (* no_op_changes_frozen.  Over ALL sequences of mutators (applied to any
-   objects, frozen or not) and allocations, a frozen object keeps flag,
-   itercount and contents. *)
+   objects, frozen or not), allocations and assignments of captured variables,
+   a frozen object keeps flag, itercount and contents.  (A cell is not an object
+   with a frozen flag; it is covered by the next theorems.) *)
 Theorem no_op_changes_frozen :
   forall steps h l,
-    is_frozen h l = true -> lookup (run_steps h steps) l = lookup h l.
+    is_frozen h l = true -> is_cell h l = false -> lookup (run_steps h steps) l = lookup h l.
 Proof. exact frozen_stays_lemma. Qed.
 
 (* ... and if everything reachable from some roots is frozen, the whole
-   reachable subgraph -- objects and edges -- is preserved. *)
-Theorem frozen_subgraph_stable :
+   reachable subgraph -- objects and edges -- is preserved.
+   FULL statement (for all step sequences): refuted below.  Proved here with the
+   guard `no_cell_set steps`: no function that is still running re-assigns a
+   variable captured by a closure.  Starlark code run AFTER the module finished
+   cannot do that to a variable of the finished module (there is no nonlocal
+   assignment, and the activations that own the variables have returned); a host
+   that lets a module finish while the owner is still running can. *)
+Theorem frozen_subgraph_stable_partial :
   forall steps h roots,
+    no_cell_set steps = true ->
     (forall l, reachable h roots l -> is_frozen h l = true) ->
     forall l, reachable h roots l ->
       lookup (run_steps h steps) l = lookup h l /\ reachable (run_steps h steps) roots l.
 Proof. exact reach_frozen_closed_lemma. Qed.
 
 (* The property, composed: after the module epilogue no sequence of operations
-   changes any object reachable from the globals. *)
+   changes any object reachable from the globals.  Same guard. *)
 Lemma module_values_immutable_lemma :
   forall fuel h globals h' steps,
+    no_cell_set steps = true ->
     closed_frozen h ->
     freeze_globals fuel h globals = Some h' ->
     forall l o, reachable h globals l -> lookup h' l = Some o ->
       lookup (run_steps h' steps) l = Some o.
 Proof.
-  intros fuel h globals h' steps C H l o Hr Hl.
-  rewrite <- Hl. apply frozen_stays_lemma.
+  intros fuel h globals h' steps Hn C H l o Hr Hl.
+  rewrite <- Hl. apply frozen_stays_nocell_lemma; auto.
   unfold is_frozen. rewrite Hl.
   destruct (mutable_kind o) eqn:Hm; auto.
   destruct (freeze_closure_lemma _ _ _ _ C H) as [_ Hall].
   apply (Hall l o Hr Hl). destruct o; simpl in *; auto; discriminate.
 Qed.
 
-Theorem module_values_immutable :
+Theorem module_values_immutable_partial :
   forall fuel h globals h' steps,
+    no_cell_set steps = true ->
     closed_frozen h ->
     freeze_globals fuel h globals = Some h' ->
     forall l o, reachable h globals l -> lookup h' l = Some o ->
       lookup (run_steps h' steps) l = Some o.
 Proof. exact module_values_immutable_lemma. Qed.
+
+(* The full statement is FALSE for the code as it is (finding
+   "closure-variable-rebound-after-freeze"): module B is run by a built-in that
+   a function `outer` of module A calls with its inner function f (which
+   captures outer's variable x); B binds f to a global and finishes: f and the
+   list x holds are frozen.  Then `outer` continues with  x = [2] : the cell of
+   the frozen closure now holds a fresh mutable list, which is reachable from
+   B's global and accepts append.
+     0: f = function, free variable cell 1     1: cell x, holding list 2
+     2: [1]                                    3: [2], created by outer afterwards *)
+Definition rebind_heap : heap :=
+  [OFunc false [] [VRef 1] 0; OCell (Some (VRef 2)); OList false 0 [VAtom 1]; OList false 0 [VAtom 2]].
+Definition rebind_steps : list step := [SCellSet 1 (VRef 3); SMut 3 (LAppend (VAtom 3))].
+
+Lemma rebind_refutes :
+  exists h' : heap,
+    closed_frozen rebind_heap /\
+    freeze_globals 8 rebind_heap [VRef 0] = Some h' /\
+    (* the captured variable, reachable from the global, changed ... *)
+    reachable rebind_heap [VRef 0] 1 /\
+    lookup h' 1 = Some (OCell (Some (VRef 2))) /\
+    lookup (run_steps h' rebind_steps) 1 = Some (OCell (Some (VRef 3))) /\
+    (* ... and a list reachable from the global is not frozen and was appended to *)
+    reachable (run_steps h' rebind_steps) [VRef 0] 3 /\
+    lookup (run_steps h' rebind_steps) 3 = Some (OList false 0 [VAtom 2; VAtom 3]).
+Proof.
+  eexists. split; [|split; [reflexivity|]].
+  - apply nothing_frozen_closed. intros l o Hl Hfl.
+    do 4 (destruct l as [|l]; [simpl in Hl; injection Hl as <-; simpl in *; congruence|]).
+    destruct l; discriminate.
+  - assert (P1 : forall hh, lookup hh 0 = Some (OFunc true [] [VRef 1] 0) -> reach hh 0 1).
+    { intros hh H0. apply Relation_Operators.rt1n_trans with 1; [eexists; split; [exact H0|simpl; auto]|].
+      apply Relation_Operators.rt1n_refl. }
+    repeat split; try reflexivity.
+    + exists 0. split; [left; reflexivity|].
+      apply Relation_Operators.rt1n_trans with 1; [eexists; split; [reflexivity|simpl; auto]|].
+      apply Relation_Operators.rt1n_refl.
+    + exists 0. split; [left; reflexivity|].
+      apply Relation_Operators.rt1n_trans with 1; [eexists; split; [reflexivity|simpl; auto]|].
+      apply Relation_Operators.rt1n_trans with 3; [eexists; split; [reflexivity|simpl; auto]|].
+      apply Relation_Operators.rt1n_refl.
+Qed.
+
+Theorem module_values_immutable_refuted :
+  exists fuel h globals h' steps l o,
+    closed_frozen h /\
+    freeze_globals fuel h globals = Some h' /\
+    reachable h globals l /\ lookup h' l = Some o /\
+    lookup (run_steps h' steps) l <> Some o.
+Proof.
+  destruct rebind_refutes as [h' [C [F [R [L1 [L2 _]]]]]].
+  exists 8, rebind_heap, [VRef 0], h', rebind_steps, 1, (OCell (Some (VRef 2))).
+  repeat split; auto. rewrite L2. discriminate.
+Qed.
+
+Theorem frozen_module_reaches_mutable_value_refuted :
+  exists fuel h globals h' steps l es,
+    closed_frozen h /\
+    freeze_globals fuel h globals = Some h' /\
+    reachable (run_steps h' steps) globals l /\
+    lookup (run_steps h' steps) l = Some (OList false 0 es).
+Proof.
+  destruct rebind_refutes as [h' [C [F [_ [_ [_ [R L]]]]]]].
+  exists 8, rebind_heap, [VRef 0], h', rebind_steps, 3, [VAtom 2; VAtom 3]. auto.
+Qed.
 
 (* The oracle of the correspondence check (Spec.reach_dec, a bounded iteration
    that is accepted only if its result is closed under the edge relation)
@@ -227,3 +302,9 @@ Example ex_model_meets_spec :
   spec_ok ex_heap [VRef 0] (observe ex_frozen 4 (SAdd 8)) = true /\
   p_err (observe ex_frozen 4 (SAdd 8)) = true.
 Proof. repeat split; reflexivity. Qed.
+
+Example ex_partial_guard :
+  no_cell_set [SMut 0 (LAppend (VAtom 5)); SAlloc (OList false 0 []); SMut 6 LClear] = true /\
+  lookup (run_steps ex_frozen [SMut 0 (LAppend (VAtom 5)); SAlloc (OList false 0 []); SMut 6 LClear]) 0
+    = lookup ex_frozen 0.
+Proof. split; reflexivity. Qed.
